@@ -63,6 +63,7 @@ var gens = []generator{
 	{file: "FeatFilter.lean", src: "feature.go (filter constructors, FeatureSlice.Filter)", run: genFeatFilter},
 	{file: "FeatSelector.lean", src: "feature.go (shiftSelector, toQualifier)", run: genFeatSelector},
 	{file: "FeatRepair.lean", src: "feature.go (Repair)", run: genFeatRepair},
+	{file: "Props.lean", src: "props.go (Index, Has, Keys, Items, Get, Set, Add, Del, Clone)", run: genProps},
 	{file: "SeqPrelude.lean", src: "(fixed prelude: how a Sequence and the non-byte slices are read)", run: genSeqPrelude},
 	{file: "SeqFilter.lean", src: "feature.go (filter combinators, FeatureSlice.Filter)", run: genSeqFilter},
 	{file: "SeqInsert.lean", src: "sequence.go (insert, Insert, Embed)", run: genSeqInsert},
